@@ -239,6 +239,7 @@ func run(spec *PropSpec, st *interp.Stage, tier string, seed int, only string, w
 		job  JobSpec
 		v    *interp.Violation
 		l    *interp.Loaded
+		k    int // unrolling depth of the job that found it (BMC)
 	}
 	var pend []pendingViolation
 	for _, r := range results {
@@ -274,7 +275,11 @@ func run(spec *PropSpec, st *interp.Stage, tier string, seed int, only string, w
 				ev.known++
 				continue
 			}
-			pend = append(pend, pendingViolation{r.Spec, v, loaded[r.Spec.Group]})
+			kk := 0
+			if r.BMC != nil {
+				kk = r.BMC.K
+			}
+			pend = append(pend, pendingViolation{r.Spec, v, loaded[r.Spec.Group], kk})
 		}
 	}
 	// replay unknown violations (a few per distinct harness/label)
@@ -296,6 +301,32 @@ func run(spec *PropSpec, st *interp.Stage, tier string, seed int, only string, w
 		reproduced, out := true, "replay skipped"
 		if !noReplay {
 			reproduced, out = replay(st, p.job, p.l, dir)
+			if !reproduced && p.job.Mode == "bmc" && p.job.Params["nopor"] == 0 {
+				// the partial-order constraint fixes the order of independent steps, and
+				// with it the run may not be one the real scheduler produces (the library
+				// never waits while it can move): ask again without that constraint, for
+				// runs of the same bound, where the minimisation can pick a prompt run
+				j2 := p.job
+				j2.Params = map[string]int{}
+				for k, v := range p.job.Params {
+					j2.Params[k] = v
+				}
+				j2.Params["nopor"], j2.Params["generator"] = 1, 1
+				if p.k > 0 {
+					j2.K = p.k
+				}
+				r2 := runJob(p.l, j2, false)
+				if r2.Err == nil && r2.BMC != nil {
+					for _, v2 := range r2.BMC.Violations {
+						if v2.Label != p.v.Label {
+							continue
+						}
+						writeCex(dir, j2, v2)
+						reproduced, out = replay(st, j2, p.l, dir)
+						break
+					}
+				}
+			}
 		}
 		os.WriteFile(filepath.Join(dir, "replay.log"), []byte(out), 0o644)
 		if reproduced {
